@@ -37,6 +37,6 @@ def run(ctx):
         evaluations=s.get("c06.sorts", 0),
         floors={"c06.sorts": 800, "c06.chunks.1": 100, "c06.chunks.2-4": 60, "c06.chunks.5-20": 100, "c06.chunks.>20": 100, "c06.cases_duplicates_across_chunks": 200,
                 "c06.cases_with_empty_key": 100, "c06.empty_input": 5, "c06.pool.8": 50, "c06.pool.0": 50, "c06.out.sorter_write": 120, "c06.out.sorter_write_into_writer_on_the_same_pool": 20, "c06.out.iter_abandoned": 120,
-                "c06.spill_deadline_checks": 100000, "c06.post_iteration_refusal_checks": 700, "c06.order.all-equal-keys": 100, "c06.failing_merge.cases": 10, "c06.failing_merge_pooled.cases": 3, "c06.temp_dir_name_with_percent_signs": 300, "c06.max_memory_request_0": 30,
+                "c06.spill_deadline_checks": 100000, "c06.post_iteration_refusal_checks": 700, "c06.order.all-equal-keys": 100, "c06.failing_merge.cases": 10, "c06.failing_merge_pooled.cases": 3, "c06.temp_dir_name_with_percent_signs": 300, "c06.max_memory_request_0": 30, "c06.merge_function.smaller_operand": 100, "c06.merge_function_uses_640KiB_of_stack": 50, "c06.temp_dir_path_longer_than_300_bytes": 100,
                 "off.c06min.sorts": 7, "off.c06min.request.0": 1, "off.c06min.request.1048576": 1, **({"plain.c06big.sorts": 2} if th else {})},
         extra={"spills_observed": s.get("c06.spills_observed", 0)})
